@@ -10,6 +10,7 @@ import (
 	"os"
 	"sync"
 
+	"verif/harness/mimefam"
 	"verif/harness/pipeconn"
 	"verif/harness/rec"
 	"verif/harness/session"
@@ -133,6 +134,17 @@ func runOne(family string, j job, seed int64) result {
 		evs := rn.Rec.Events()
 		session.PostProcessLogs(evs)
 		return result{idx: j.idx, lines: rec.Marshal(evs), infra: rn.Infra}
+	case "mime":
+		var s mimefam.Scenario
+		if err := json.Unmarshal(j.line, &s); err != nil {
+			return result{idx: j.idx, infra: err}
+		}
+		if s.ID == "" {
+			s.ID = fmt.Sprintf("M%06d", j.idx)
+		}
+		rn := &mimefam.Runner{Sc: s, Rec: rec.New(), T: j.idx, Seed: seed, TmpDir: session.TLSDir}
+		rn.Run()
+		return result{idx: j.idx, lines: rn.Rec.Lines(), infra: rn.Infra}
 	}
 	return result{idx: j.idx, infra: fmt.Errorf("unknown family %q", family)}
 }
